@@ -229,9 +229,10 @@ pub struct Pred {
 /// What the model needs to know about the scheme.
 #[derive(Clone, Debug)]
 pub struct SchemeInfo {
-    pub key_name: Vec<u8>,
+    /// the key name under which each signer's public key is stored (index = signer)
+    pub key_names: Vec<Vec<u8>>,
     /// raw RLP of the public-key entry for key index 0 / 1
-    pub pk_raw: [Vec<u8>; 2],
+    pub pk_raw: Vec<Vec<u8>>,
 }
 
 pub const PK_NAMES: [&[u8]; 3] = [b"secp256k1", b"ed25519", crate::schemes::VAR_KEY_NAME];
@@ -252,7 +253,7 @@ pub fn typed_check(key: &[u8], raw: &[u8], si: &SchemeInfo, signer: usize) -> TR
     if !rlp::well_formed_single(raw) {
         // a malformed value under the signer's own key name is overwritten by the signer's entry:
         // refusing it or storing the signer's key are both admissible
-        if key == si.key_name.as_slice() {
+        if key == si.key_names[signer].as_slice() {
             return TRes::Either(vec![InvalidRlpData]);
         }
         if key == b"id" {
@@ -299,7 +300,7 @@ pub fn typed_check(key: &[u8], raw: &[u8], si: &SchemeInfo, signer: usize) -> TR
             }
         }
         k if PK_NAMES.contains(&k) => {
-            if k == si.key_name.as_slice() && raw == si.pk_raw[signer].as_slice() {
+            if k == si.key_names[signer].as_slice() && raw == si.pk_raw[signer].as_slice() {
                 TRes::Fine
             } else {
                 TRes::Either(vec![InvalidRlpData])
@@ -488,7 +489,7 @@ pub fn predict(st: &MState, step: &Step, si: &SchemeInfo) -> Pred {
             for (k, bytes) in ins {
                 let raw = rlp::enc_str(&bytes.b);
                 let old = w.store(&k.b, &raw, si, signer);
-                if k.b == si.key_name {
+                if k.b == si.key_names[signer] {
                     inserted.push(Slot::AnyOf(vec![old, Some(si.pk_raw[signer].clone()), None]));
                 } else {
                     inserted.push(Slot::Exact(old));
@@ -498,11 +499,11 @@ pub fn predict(st: &MState, step: &Step, si: &SchemeInfo) -> Pred {
         }
         Act::SetPublicKey(i) => {
             // insert(name, str(pk.encode()))
-            w.store(&si.key_name.clone(), &si.pk_raw[*i].clone(), si, signer);
+            w.store(&si.key_names[*i].clone(), &si.pk_raw[*i].clone(), si, signer);
         }
     }
     // common tail
-    w.pairs.insert(si.key_name.clone(), si.pk_raw[signer].clone());
+    w.pairs.insert(si.key_names[signer].clone(), si.pk_raw[signer].clone());
     let mut forced = w.bad.clone();
     if seq_new.is_none() {
         forced.push(SequenceNumberTooHigh);
@@ -629,7 +630,7 @@ pub fn builder_predict(b: &BState, signer: usize, siglen: usize, si: &SchemeInfo
     let mut either = vec![];
     for (k, raw) in &b.content {
         let t = typed_check(k, raw, si, signer);
-        let overwritten = k.as_slice() == b"id" || k == &si.key_name;
+        let overwritten = k.as_slice() == b"id" || k == &si.key_names[signer];
         match t {
             TRes::Fine => {}
             TRes::Either(e) => either.extend(e),
@@ -644,7 +645,7 @@ pub fn builder_predict(b: &BState, signer: usize, siglen: usize, si: &SchemeInfo
     }
     let mut pairs = b.content.clone();
     pairs.insert(b"id".to_vec(), rlp::enc_str(b"v4"));
-    pairs.insert(si.key_name.clone(), si.pk_raw[signer].clone());
+    pairs.insert(si.key_names[signer].clone(), si.pk_raw[signer].clone());
     let seq = b.seq.unwrap_or(1);
     let size = record_size(&pairs, seq, siglen);
     let mut forced = bad;
